@@ -4,6 +4,11 @@ NOTES = ("All checks run /venv/bin/python on bitstring imported from /repo's wor
          "known_findings.json lists genuine defects (open: reported as KNOWN-FINDING; fixed: suppress nothing).")
 NOT_APPLICABLE = {}
 CHECKS = {
+ 'C13': dict(
+    text="Bounded exhaustive exploration over pairs and triples: every ordered pair of objects (class x content x ~40 construction routes incl. file-backed with offset/length x pos) with equal content, and every object against representatives of every other content, is compared with ==, != in both directions, and for hashable classes by hash, set and dict membership; long contents around the 2000/3600-bit hash thresholds with single-bit and length variants; every promotable and non-promotable right operand; transitivity over all triples of small contents.",
+    design_ref="DESIGN.md section 4 C13",
+    note="Trusts str equality. Small contents exhaustive to 4 (quick) / 5 (thorough) bits; long contents by pattern family at the listed lengths.",
+    technique="explicit-state bounded exhaustive enumeration of object pairs/triples (product explorer) against bit-string equality"),
  'C06': dict(
     text="Explicit-state breadth-first search over stream-operation histories on one real ConstBitStream/BitStream: from every root (class x content x pos, two construction routes) the full event menu (reads/peeks with every token kind and integer counts incl. 0, negative and one past the end, readlist/peeklist forms incl. stretchy tokens and keyword lengths, seeks via pos/bitpos/bytepos/bytealign, find/rfind/readto, every BitStream mutator with and without explicit position, property assignments, every operation returning a new stream, ==/hash against a twin) is applied at depth 1-2 and reduced menus deeper, with ((bits,pos), hidden fingerprint) deduplication; each transition is replayed from the root and value, content and pos are compared with a (bits,pos) reference machine; 0 <= pos <= len is checked after every event.",
     design_ref="DESIGN.md section 4 C06",
